@@ -102,7 +102,11 @@ def requiredLocks : List (String × String) :=
 def sectionsOk (table : List (String × String × List String)) : Bool :=
   requiredLocks.all (fun (k, l) => table.any (fun site => site.1 == k) && table.all (fun site => site.1 != k || site.2.2.contains l)) &&
   -- the only rejection decided inside batchMessages (Writer closed) is decided under w.mutex
-  table.all (fun site => !(site.1 == "W.Reject" && site.2.1 == "Writer.batchMessages") || site.2.2.contains "Writer.mutex")
+  table.all (fun site => !(site.1 == "W.Reject" && site.2.1 == "Writer.batchMessages") || site.2.2.contains "Writer.mutex") &&
+  -- appending to / flushing batches from WriteMessages, and closing partition writers from Close, happen inside the
+  -- w.mutex section as well (locks held by every caller of a function count as held inside it)
+  table.all (fun site => !(site.2.1 == "partitionWriter.writeMessages" || site.2.1 == "partitionWriter.close") ||
+    site.2.2.contains "Writer.mutex")
 
 /-- **events_inside_their_sections** — in the source as it stands, every hook of an event the model treats as part of a
 w.mutex / ptw.mutex / queue-lock critical section is syntactically inside that lock's bracket, and every hand-over of a
